@@ -210,6 +210,15 @@ func exec(c proto.Case, o *proto.Out) []string {
 			}
 		case "dload":
 			outs[i] = guarded(func() string { return disp.load(tmpDir()) })
+		case "dburst":
+			outs[i] = guarded(func() string { return disp.burst(w[1:]) })
+			o.Count("dburst")
+			if strings.Contains(outs[i], "passed=") && !strings.Contains(outs[i], "passed=0 ") {
+				passed = true
+			}
+			if strings.Contains(outs[i], "blocked=") && !strings.Contains(outs[i], "blocked=0 ") {
+				blocked = true
+			}
 		case "dreq":
 			outs[i] = guarded(func() string { return disp.req(w[1:]) })
 			o.Count("dreq-" + strings.Fields(outs[i])[0])
